@@ -217,15 +217,56 @@ fn same_graph<K: Kmer>(o: &mut Outcome, what: &str, a: &DebruijnGraph<K, u16>, b
             o.fail("serde-roundtrip-differs", format!("[{}] node {} differs after the round trip", what, i));
         }
     }
-    if K::k() <= 6 {
-        for w in all_strings(K::k()) {
-            for d in [Dir::Left, Dir::Right] {
-                let (p, q) = (a.find_link(mk::<K>(&w), d), b.find_link(mk::<K>(&w), d));
-                if p.map(|(i, s, f)| (i, side_of(s), f)) != q.map(|(i, s, f)| (i, side_of(s), f)) {
-                    o.fail("serde-roundtrip-differs", format!("[{}] find_link({}) differs after the round trip", what, ascii(&w)));
+    // every query: link lookups for ALL k-mers (K <= 6) or for every terminal k-mer, its reverse complement and
+    // its one-base neighbours (wide K)
+    let probes: Vec<S> = if K::k() <= 6 {
+        all_strings(K::k()).collect()
+    } else {
+        let mut v: Vec<S> = vec![];
+        for i in 0..va.nodes.len() {
+            for t in [va.first(i).to_vec(), va.last(i).to_vec()] {
+                v.push(rc(&t));
+                for b in 0..4u8 {
+                    v.push(ext_str(&t, Side::L, b));
+                    v.push(ext_str(&t, Side::R, b));
                 }
+                v.push(t);
             }
         }
+        v
+    };
+    for w in probes {
+        for d in [Dir::Left, Dir::Right] {
+            let (p, q) = (a.find_link(mk::<K>(&w), d), b.find_link(mk::<K>(&w), d));
+            if p.map(|(i, s, f)| (i, side_of(s), f)) != q.map(|(i, s, f)| (i, side_of(s), f)) {
+                o.fail("serde-roundtrip-differs", format!("[{}] find_link({}) differs after the round trip", what, ascii(&w)));
+            }
+        }
+    }
+    // node k-mer iteration, best paths and the exports of the graph read back
+    for i in 0..va.nodes.len() {
+        let (x, y): (Vec<K>, Vec<K>) = (a.get_node_kmer(i).into_iter().collect(), b.get_node_kmer(i).into_iter().collect());
+        if x != y {
+            o.fail("serde-roundtrip-differs", format!("[{}] node {}: k-mer iteration differs after the round trip", what, i));
+        }
+    }
+    if !va.nodes.is_empty() {
+        let (p, q) = (a.max_path(|d| *d as f32, |_| true), b.max_path(|d| *d as f32, |_| true));
+        if format!("{:?}", p) != format!("{:?}", q) || a.sequence_of_path(p.iter()).to_string() != b.sequence_of_path(q.iter()).to_string() {
+            o.fail("serde-roundtrip-differs", format!("[{}] max_path / sequence_of_path differ after the round trip", what));
+        }
+    }
+    let (mut ga, mut gb) = (Vec::new(), Vec::new());
+    let _ = a.write_gfa(&mut ga);
+    let _ = b.write_gfa(&mut gb);
+    let (mut ja, mut jb) = (Vec::new(), Vec::new());
+    a.to_json_rest(|d| json!(*d), &mut ja, None);
+    b.to_json_rest(|d| json!(*d), &mut jb, None);
+    if ga != gb || ja != jb {
+        o.fail("serde-roundtrip-differs", format!("[{}] the GFA / JSON export of the graph read back differs from the original's", what));
+    }
+    if a.is_compressed(&sum_spec()) != b.is_compressed(&sum_spec()) {
+        o.fail("serde-roundtrip-differs", format!("[{}] is_compressed differs after the round trip", what));
     }
 }
 
@@ -317,8 +358,14 @@ pub fn run<K: Kmer + Send + Sync + Serialize + DeserializeOwned>(c: &GCase) -> O
         let js = serde_json::to_string(&g).expect("serialize DebruijnGraph");
         match serde_json::from_str::<DebruijnGraph<K, u16>>(&js) {
             Ok(g2) => {
-                o.transitions += 1;
+                o.transitions += 2;
                 same_graph(&mut o, "DebruijnGraph", &g, &g2);
+                // ... and the graph read back can be worked on: re-compressing it gives what re-compressing the original gives
+                let ra = view(&compress_graph(c.stranded, &sum_spec(), compress_kmers(c.stranded, &sum_spec(), &pruned).finish_serial(), None));
+                let rb = view(&compress_graph(c.stranded, &sum_spec(), g2, None));
+                if format!("{:?}", ra.nodes) != format!("{:?}", rb.nodes) {
+                    o.fail("serde-roundtrip-differs", "re-compressing the graph read back differs from re-compressing the original".into());
+                }
             }
             Err(e) => o.fail("serde-roundtrip-fails", format!("DebruijnGraph does not deserialize: {}", e)),
         }
